@@ -191,14 +191,20 @@ func (w *world) admReq(f []string) string {
 	for _, v := range unCsvHex(f[4]) {
 		q.Add("transport", v)
 	}
-	switch {
-	case f[5] == "-":
-	case f[5][0] == 's':
-		if s := w.sock(atoi(f[5][1:])); s != nil {
-			q.Add("sid", s.Id())
+	// the sid field: "-" (absent), or one or more values joined by "+" (a repeated parameter, in that order):
+	// s<n> the id of session n, e the empty string, x<hex> that text
+	for _, tok := range strings.Split(f[5], "+") {
+		switch {
+		case tok == "-":
+		case tok == "e":
+			q.Add("sid", "")
+		case tok[0] == 's':
+			if s := w.sock(atoi(tok[1:])); s != nil {
+				q.Add("sid", s.Id())
+			}
+		default:
+			q.Add("sid", string(unhx(tok[1:])))
 		}
-	default:
-		q.Add("sid", string(unhx(f[5][1:])))
 	}
 	for _, v := range unCsvHex(f[6]) {
 		q.Add("EIO", v)
@@ -232,8 +238,9 @@ func (w *world) admReq(f []string) string {
 			body = []byte("6") // a noop packet (every session here is made with EIO=4)
 		}
 		// make sure a dispatched poll is answered at once
-		if f[5][0] == 's' && f[3] == "GET" {
-			if s := w.sock(atoi(f[5][1:])); s != nil && s.ReadyState() == "open" {
+		lastSid := f[5][strings.LastIndex(f[5], "+")+1:] // the value that counts when the parameter is repeated
+		if lastSid[0] == 's' && f[3] == "GET" {
+			if s := w.sock(atoi(lastSid[1:])); s != nil && s.ReadyState() == "open" {
 				s.Send(strings.NewReader("x"), nil, nil)
 				synctest.Wait()
 			}
@@ -439,6 +446,10 @@ func famAdm(t *testing.T, r *Rec) {
 			lines = append(lines, "adm kill 1")
 		}
 		sids = append(sids, skind{"-", "none", ""}, skind{"x" + hx([]byte("nosuchsid")), "unknown", ""})
+		// a repeated sid parameter: the last value is the one that counts, for the checks and for the dispatch alike
+		if nmk > 0 && has(enabled, "polling") {
+			sids = append(sids, skind{"e+s0", "known", "polling"}, skind{"s0+e", "none", ""}, skind{"x" + hx([]byte("nosuchsid")) + "+s0", "known", "polling"})
+		}
 		type exp struct {
 			status, code int
 			msg          string
